@@ -216,6 +216,11 @@ for rounds in range(3):
     b = oc("b", b0)
     c = oc("c", [a])
     comps4 = [a, b0, b, c]
+    # components may carry a scheduling priority attribute (registry points do: `prio`); it must never override a dependency
+    if rounds == 1:
+        b.prio, c.prio, a.prio = 1, 1, -1
+    if rounds == 2:
+        b0.prio, b.prio = -1, 2
     g = dict((x, set(dr.get_dependencies(x))) for x in comps4)
     del ORDERLOG[:]
     dr.run(dict(g), broker=dr.Broker())
@@ -225,6 +230,10 @@ for rounds in range(3):
     del ORDERLOG[:]
     dr.run(dict(g2), broker=dr.Broker())
     second = list(ORDERLOG)
+    for log_ in (first, second):
+        if sorted(log_) == ["a", "b", "b0", "c"] and not (log_.index("a") < log_.index("b0") < log_.index("b") and log_.index("a") < log_.index("c")):
+            fail(violation="C01: a component was attempted before one of its declared dependencies (components carrying a priority attribute)",
+                 order=log_, prio=dict((x.__name__, getattr(x, "prio", None)) for x in comps4))
     if b not in g2[c] or second.index("b") > second.index("c") or sorted(first) != ["a", "b", "b0", "c"] or sorted(second) != sorted(first):
         fail(violation="C01: after a dependency was added between two components of an already evaluated set, the next evaluation attempts the "
                        "dependent before its new dependency", first_order=first, second_order=second)
